@@ -20,6 +20,26 @@ class Stream:
         if batch_oracle and not oracle:
             self.oracle = lambda l, io: batch_oracle([l], [io])[0]
 
+LINE_LIMIT_S = float(os.environ.get("VERIF_LINE_LIMIT_S", "60"))
+
+def timed_impl(impl, line):
+    """one protocol line on the implementation, under a time limit: a handler that does not come back (a mutated loop that
+    never ends) answers `!Timeout` instead of hanging the check"""
+    import signal, threading
+    if threading.current_thread() is not threading.main_thread():
+        return impl(line)
+    def onalarm(signum, frame):
+        raise CallTimeout()
+    old = signal.signal(signal.SIGALRM, onalarm)
+    signal.setitimer(signal.ITIMER_REAL, LINE_LIMIT_S)
+    try:
+        return impl(line)
+    except CallTimeout:
+        return "!Timeout"
+    finally:
+        signal.setitimer(signal.ITIMER_REAL, 0)
+        signal.signal(signal.SIGALRM, old)
+
 def _shrink(stream, line, still_bad, budget=300):
     if not stream.shrink:
         return line
@@ -48,7 +68,7 @@ def run_streams(res: Result, streams: list[Stream], broken, known_match=None, ma
         t0 = time.time()
         impl_out = []
         for l in st.lines:
-            impl_out.append(st.impl(l))
+            impl_out.append(timed_impl(st.impl, l))
         model_out = None
         if model_ok and st.model:
             try:
@@ -57,7 +77,18 @@ def run_streams(res: Result, streams: list[Stream], broken, known_match=None, ma
                 broken = broken + [(f"model driver failed on stream {st.name}", str(e)[:500])]
         if model_out is not None and st.canon:
             model_out = [st.canon(m) for m in model_out]
-        batch = st.batch_oracle(st.lines, impl_out) if (st.batch_oracle and st.lines) else None
+        batch = None
+        if st.batch_oracle and st.lines:
+            try:
+                batch = st.batch_oracle(st.lines, impl_out)
+            except Exception:
+                # evaluate line by line so that one unreadable reply does not take the whole stream down
+                batch = []
+                for l1, o1 in zip(st.lines, impl_out):
+                    try:
+                        batch.append(st.batch_oracle([l1], [o1])[0])
+                    except Exception as e:
+                        batch.append(f"the implementation's reply cannot be evaluated ({type(e).__name__}: {str(e)[:120]}); reply: {o1[:160]}")
         ndiv = 0
         for k, l in enumerate(st.lines):
             io = impl_out[k]
@@ -73,7 +104,10 @@ def run_streams(res: Result, streams: list[Stream], broken, known_match=None, ma
                 if batch[k]:
                     failures.append((st, l, io, batch[k]))
             elif st.oracle:
-                why = st.oracle(l, io)
+                try:
+                    why = st.oracle(l, io)
+                except Exception as e:     # a reply the oracle cannot even read (NaN, truncated text, ...) is a failed reply
+                    why = f"the implementation's reply cannot be evaluated ({type(e).__name__}: {str(e)[:120]}); reply: {io[:160]}"
                 if why:
                     failures.append((st, l, io, why))
         if st.lines:
@@ -97,11 +131,16 @@ def run_streams(res: Result, streams: list[Stream], broken, known_match=None, ma
             continue
         unmatched += 1
         if unmatched <= max_report:
-            small = _shrink(st, l, lambda c: bool(st.oracle(c, st.impl(c))) and not (known_match and known_lookup(res.pid, known_match(st.name, c, st.oracle(c, st.impl(c))))))
+            def safe_oracle(c, o):
+                try:
+                    return st.oracle(c, o)
+                except Exception as e:
+                    return f"the implementation's reply cannot be evaluated ({type(e).__name__}); reply: {o[:160]}"
+            small = _shrink(st, l, lambda c: bool(safe_oracle(c, st.impl(c))) and not (known_match and known_lookup(res.pid, known_match(st.name, c, safe_oracle(c, st.impl(c))))))
             sio = st.impl(small)
-            res.violation(f"stream={st.name} {st.oracle(small, sio) or why}"[:300],
+            res.violation(f"stream={st.name} {safe_oracle(small, sio) or why}"[:300],
                           {"kind": "property-fails-on-implementation", "stream": st.name, "line": small,
-                           "original_line": l, "implementation_output": sio, "why": st.oracle(small, sio) or why})
+                           "original_line": l, "implementation_output": sio, "why": safe_oracle(small, sio) or why})
     # ---- broken tie without a failing input
     if unmatched == 0 and (divergences or broken):
         rep = {"kind": "proof-or-correspondence-broken", "broken_obligations": [list(b) for b in broken]}
